@@ -1166,7 +1166,7 @@ class Interp:
                     cands = self.dom.for_next(g, itv, s1)
                     if not cands:
                         cands = []
-                    for elem, s2 in cands[:1] if len(cands) > 1 and all(c[1] == s2 for c in cands) and False else cands:
+                    for elem, s2 in cands:
                         o2, e2 = self.assign(g.target, elem, s2, ctx)
                         excs += e2
                         for s3 in o2:
